@@ -143,8 +143,39 @@ func TestCheck(t *testing.T) {
 //	           flight). The cleaner closes the channel Stop waits on from a
 //	           deferred call, so this state is legitimate for a correct Stop and
 //	           is not judged.
-func cleanerState(dump string) (state string, frames string) {
+func cleanerState(dump string) (state string, frames string) { return cleanerStateN(dump, 0) }
+
+// cleanerStateN is cleanerState for a process in which `others` further caches
+// are known to be still running (their cleaners legitimately sit in their
+// loops): the verdict is about the cleaners in excess of those.
+func cleanerStateN(dump string, others int) (state string, frames string) {
+	looping, exiting := 0, 0
+	loopFr, exitFr := "", ""
 	for _, g := range mon.ParseStacks(dump) {
+		switch st, fr := oneCleaner(g); st {
+		case "looping":
+			looping++
+			loopFr = fr
+		case "exiting":
+			exiting++
+			exitFr = fr
+		}
+	}
+	switch {
+	case looping > others:
+		if others > 0 {
+			loopFr = fmt.Sprintf("%d cleaner goroutines still in their loops, only %d other caches are running; one of them: %s", looping, others, loopFr)
+		}
+		return "looping", loopFr
+	case looping+exiting > others:
+		return "exiting", exitFr
+	}
+	return "gone", ""
+}
+
+// oneCleaner classifies one goroutine: "" (not a cleaner), looping or exiting.
+func oneCleaner(g mon.G) (state string, frames string) {
+	for range 1 {
 		cleaner := false
 		for _, f := range g.Frames {
 			if strings.Contains(f, "ttlcache.") && strings.Contains(f, "startBackgroundCleanup.func") {
@@ -152,7 +183,7 @@ func cleanerState(dump string) (state string, frames string) {
 			}
 		}
 		if !cleaner {
-			continue
+			return "", ""
 		}
 		fr := g.Frames
 		if len(fr) > 8 {
@@ -178,7 +209,7 @@ func cleanerState(dump string) (state string, frames string) {
 		}
 		return "exiting", frames
 	}
-	return "gone", ""
+	return "", ""
 }
 
 var (
@@ -221,9 +252,13 @@ var dumpBuf = make([]byte, 1<<19)
 // cleaner. Whatever the snapshot shows was true at a moment after this Stop
 // call had returned, so "looping" is a sound witness against this call.
 func stopAndDump(c interface{ Stop() }, buf []byte) (state, frames string) {
+	return stopAndDumpN(c, buf, 0)
+}
+
+func stopAndDumpN(c interface{ Stop() }, buf []byte, others int) (state, frames string) {
 	c.Stop()
 	n := runtime.Stack(buf, true)
-	return cleanerState(string(buf[:n]))
+	return cleanerStateN(string(buf[:n]), others)
 }
 
 // stopCheck calls Stop and judges the cleaner's state, then calls Stop once
@@ -236,13 +271,18 @@ func stopAndDump(c interface{ Stop() }, buf []byte) (state, frames string) {
 // return of Stop and the snapshot. This only sharpens the observation; the
 // verdict rule is unchanged (a cleaner seen inside its loop after Stop returned).
 func stopCheck(c interface{ Stop() }, ctx string, fail func(sig, msg string)) {
+	stopCheckN(c, ctx, 0, fail)
+}
+
+// stopCheckN: `others` further caches of the process are still running.
+func stopCheckN(c interface{ Stop() }, ctx string, others int, fail func(sig, msg string)) {
 	prev := runtime.GOMAXPROCS(1)
 	defer runtime.GOMAXPROCS(prev)
 	type out struct{ state, frames string }
 	done := make(chan out, 1)
 	for call := 1; call <= 2; call++ {
 		go func() {
-			s, f := stopAndDump(c, dumpBuf)
+			s, f := stopAndDumpN(c, dumpBuf, others)
 			done <- out{s, f}
 		}()
 		select {
